@@ -357,8 +357,11 @@ def run(chk: common.Check) -> None:
                 for d in (0, 1, 2, 3):
                     it = to_aiter(iter(l), thread=False)
                     got: list = []
-                    for _ in range(pos):
-                        got.append(await it.__anext__())
+                    try:
+                        for _ in range(pos):
+                            got.append(await it.__anext__())
+                    except StopAsyncIteration:
+                        pass          # ended early: the comparison below reports it
                     req = asyncio.ensure_future(it.__anext__())
                     for _ in range(d):
                         await asyncio.sleep(0)
